@@ -83,6 +83,15 @@ def cases(tier, seed):
             continue          # MieLens needs all points at one height
         out.append({"id": "points-mixed-z:%s" % th, "kind": "mixedz",
                     "th": th})
+    # sparse subsets of a large image (distinctness is a birthday problem
+    # there) -- pure selection, no scattering
+    for blk in range(5):
+        out.append({"id": "subset-large:seeds%d-%d" % (5 * blk, 5 * blk + 4),
+                    "kind": "biglarge", "seeds": list(range(5 * blk,
+                                                            5 * blk + 5))})
+    # a detector so large / far that part of it is beyond kr = 1000: crops
+    # and point lists that hold only distant pixels
+    out.append({"id": "grid-far:mie", "kind": "gridfar"})
     # scripted environment: every ordered selection of a 2x3 image
     N = 6
     for k in range(1, N + 1):
@@ -277,6 +286,25 @@ def _run_mixedz(case, ck):
     base = _holo(det(MIXED), scat, theory).values
     ck.trans += 1
     fps = [fp_values(base)]
+    # equivalent call forms of detector_points
+    forms = {
+        "coords-dict": lambda P: hp.detector_points(
+            {"x": P[:, 0], "y": P[:, 1], "z": P[:, 2]}),
+        "dict+keyword": lambda P: hp.detector_points(
+            {"x": P[:, 0], "y": P[:, 1]}, z=P[:, 2]),
+        "lists": lambda P: hp.detector_points(
+            x=list(P[:, 0]), y=list(P[:, 1]), z=list(P[:, 2])),
+    }
+    for fname, mk in forms.items():
+        try:
+            h = _holo(mk(MIXED), scat, _theory(th)[1]).values
+        except Exception as e:
+            if H.is_refusal(e) or type(e).__name__ == "CoordSysError":
+                continue
+            raise
+        ck.trans += 1
+        _same(ck, "points-call-form", th, h, base, "%s: detector_points "
+              "given as %s vs keyword arrays" % (th, fname))
     for order in ([5, 4, 3, 2, 1, 0], [2, 0, 4, 1, 5, 3], [3, 1, 0, 5, 2, 4]):
         h = _holo(det(MIXED[order]), scat, _theory(th)[1]).values
         ck.trans += 1
@@ -306,6 +334,62 @@ def _run_mixedz(case, ck):
                 "x", "y", "z").values[:, :, 0].ravel(), "%s: z=0 points vs "
                 "grid" % th)
     return digest(*fps)
+
+
+def _run_biglarge(case, ck):
+    from holopy.core.metadata import make_subset_data
+    det = H.det_grid((120, 90), 0.1, name="cam")
+    acc = []
+    for k in (1, 2, 20, 50, 90, 107, 108, 109, 500):
+        for sd in case["seeds"]:
+            sub, sel = make_subset_data(det, pixels=k, return_selection=True,
+                                        seed=sd)
+            sub2, sel2 = make_subset_data(det, pixels=k,
+                                          return_selection=True, seed=sd)
+            ck.trans += 2
+            ck.true("subset-distinct", len(set(sel.tolist())) == k,
+                    "%d-pixel subset of a 120x90 image (seed %d) repeats "
+                    "pixels" % (k, sd))
+            ck.true("subset-reproducible", np.array_equal(sel, sel2),
+                    "seed %d not reproducible for k=%d" % (sd, k))
+            pairs = set(zip(sub.x.values.tolist(), sub.y.values.tolist()))
+            ck.true("subset-distinct", len(pairs) == k, "subset locations "
+                    "repeat (k=%d seed=%d)" % (k, sd))
+            acc.append(np.sort(sel)[:8])
+    return digest(*acc)
+
+
+def _run_gridfar(case, ck):
+    import holopy as hp
+    from holopy.scattering import Sphere, Mie
+    sph = Sphere(n=1.59, r=0.5, center=(28.0, 28.0, 75.0))
+    det = H.det_grid((8, 8), 8.0, name="cam")
+    G = _holo(det, sph, Mie())
+    ck.trans += 1
+    Gxy = G.transpose("x", "y", "z").values[:, :, 0]
+    X, Y = np.meshgrid(det.x.values, det.y.values, indexing="ij")
+    nrect = 0
+    for x0 in range(8):
+        for x1 in range(x0 + 1, 9):
+            for y0 in (0, 3, 6):
+                for y1 in (y0 + 1, 8):
+                    if y1 <= y0 or (x0, x1, y0, y1) == (0, 8, 0, 8):
+                        continue
+                    sub = det.isel(x=slice(x0, x1), y=slice(y0, y1))
+                    S = _holo(sub, sph, Mie())
+                    ck.trans += 1
+                    nrect += 1
+                    Sv = S.transpose("x", "y", "z").values[:, :, 0]
+                    ck.same_bits("crop", Sv, Gxy[x0:x1, y0:y1], "far grid: "
+                                 "sub-rectangle x[%d:%d] y[%d:%d]" %
+                                 (x0, x1, y0, y1))
+    for sel in ([0, 7, 56, 63], [0], [63, 27], list(range(0, 64, 9))):
+        P = hp.detector_points(x=X.ravel()[sel], y=Y.ravel()[sel], z=0.0)
+        h = _holo(P, sph, Mie()).values
+        ck.trans += 1
+        ck.same_bits("grid-vs-points", h, Gxy.ravel()[sel], "far grid: "
+                     "points %r alone" % (sel,))
+    return digest(fp_values(Gxy), nrect)
 
 
 class _Scripted:
@@ -446,7 +530,8 @@ def _run_history(case, ck):
 def run_case(case):
     ck = Checker()
     fp = {"grid": _run_grid, "scripted": _run_scripted,
-          "mixedz": _run_mixedz,
+          "mixedz": _run_mixedz, "biglarge": _run_biglarge,
+          "gridfar": _run_gridfar,
           "history": _run_history}[case["kind"]](case, ck)
     return ck.result(fp=fp)
 
